@@ -228,7 +228,7 @@ def generate(rng, tier):
             p = n0 * tlen + off0
             gets.append({'kind': 'gets', 'pub': pubkind, 'geom': [tlen, mtu, MAXI, n0, off0],
                          'ops': [['n', 1], ['l', p], ['o', 1, 8], ['l', p + 1], ['c', 8], ['z'], ['l', p - 1], ['o', 2, 8], ['l', I64MAX], ['o', 3, 40], ['z'],
-                                 ['n', 0], ['l', -1], ['o', 4, 0], ['x'], ['o', 5, 1], ['l', 5]]})
+                                 ['n', 0], ['l', -1], ['o', 4, 0], ['n', 1], ['x'], ['o', 5, 1], ['l', 5], ['n', 0], ['n', 1]]})
     for i in range(n // 6 if not big else n // 4):
         pubkind = 's' if i % 2 == 0 else 'x'
         h = gen_history(rng, pubkind, malformed=(i % 5 == 4), last_terms=(i % 4 == 1), with_bulk=True, wild_limits=(i % 3 == 2))
@@ -302,7 +302,7 @@ def oracle_expr(c, mode, obs):
             '; '.join(oop_coq(o, c['pub']) for o in c['ops']), to_coq(obs))
     if isinstance(obs, int) or obs[0] != 'list' or len(obs[1]) != len(c['ops']):
         return 'false'
-    return 'holds_history (mkGeom %s %s %s) [%s] %s' % (
+    return 'holds_history2 (mkGeom %s %s %s) [%s] %s' % (
         ' '.join(z(x) for x in g), z(SESSION), z(STREAM), '; '.join(oop_coq(o, c['pub']) for o in c['ops']), to_coq(obs))
 
 
